@@ -302,7 +302,7 @@ def cli_differential(ctx, cfg) -> None:
                    "--gap-function", cfg["gap"], "--seed", str(cfg["seed"]), "--model-dir", d, "--unique-name", "run",
                    "--parallel-environments", str(p)] + (["--run-steps-limit", str(cfg["budget"])] if cfg["budget"] else []) + \
                   ["solve", "--solver", cfg["solver"], "--solve-repetitions", str(cfg["repetitions"])]
-            procs.append((p, d, subprocess.Popen(cmd, env=venv.child_env(), cwd=base, stdout=subprocess.DEVNULL, stderr=subprocess.PIPE, text=True)))
+            procs.append((p, d, subprocess.Popen(cmd, env=venv.child_env({"PYTHONHASHSEED": str(p)}), cwd=base, stdout=subprocess.DEVNULL, stderr=subprocess.PIPE, text=True)))
         results = []
         for p, d, pr in procs:
             try:
